@@ -70,7 +70,16 @@ def generate(rng, tier):
             op["share"] = share
             for _ in range(rng.randint(1, 2)):
                 inner_caps = {k: v for k, v in amounts.items() if v > 0}
-                body.append(borrow_op(inner_caps, depth + 1, nested=share))
+                inner = borrow_op(inner_caps, depth + 1, nested=share)
+                if rng.random() < 0.3:
+                    # a tenant: a volatile child of a scope inside the block borrows from the
+                    # share and is still holding when that scope ends (forceful close)
+                    inner["body"].append({"op": "sleep", "d": 64})
+                    body.append({"op": "scope", "label": "T" + inner["id"], "body": [
+                        {"op": "sleep", "d": rng.choice([0.25, 0.5, 1])}], "children": [
+                        {"name": "k" + inner["id"], "volatile": True, "ops": [inner]}]})
+                else:
+                    body.append(inner)
                 _gap(rng, body, 0.4)
         return op
 
